@@ -14,8 +14,8 @@ func c14Siblings(r *an.Run) {
 	p := r.Prog
 	tn := "chainntnfs.TxNotifier."
 	r.Obl("at-tip-and-historical-details-are-adopted-once-and-only-from-the-active-chain", "GUARD",
-		"handleConfDetailsAtTip and handleSpendDetailsAtTip both return before touching the set when it already has details; UpdateConfDetails and UpdateSpendDetails discard historical details found at or above the lowest height disconnected since the request was registered (reorgedHeight, maintained by DisconnectTip for every conf and spend set); RegisterConf decides per subscriber, from that subscriber's own includeBlock, whether the dispatched details carry the block; dispatchConfReorg and dispatchSpendReorg drain a buffered, unread notification before they reset `dispatched` and send the reorg notice",
-		"a second spend of a reused script corrupts the height index and crashes the notifier; details from a disconnected block tell a client about an event that is not on the active chain with no reorg notice to follow; one client's option must not change what another client receives; an undrained notification survives the reorg and blocks the renewed one while the notifier's lock is held", 6,
+		"handleConfDetailsAtTip and handleSpendDetailsAtTip both return before touching the set when it already has details; the function that assigns details found outside the block being connected (UpdateConfDetails; updateSpendDetails, which serves UpdateSpendDetails and ProcessRelevantSpendTx alike) assigns its details parameter to the set it looked up under its request parameter only on paths on which `details height < set.reorgedHeight` or `set.reorgedHeight == 0` was established, a stale verdict (`>=`) being acted on by overwriting the parameter with nil, which is the only overwrite of it: details at or above the lowest height disconnected since the request was registered (reorgedHeight, maintained by DisconnectTip for every conf and spend set) are discarded whoever the caller is; RegisterConf decides per subscriber, from that subscriber's own includeBlock, whether the dispatched details carry the block; dispatchConfReorg and dispatchSpendReorg drain a buffered, unread notification before they reset `dispatched` and send the reorg notice",
+		"a second spend of a reused script corrupts the height index and crashes the notifier; details from a disconnected block tell a client about an event that is not on the active chain with no reorg notice to follow; one client's option must not change what another client receives; an undrained notification survives the reorg and blocks the renewed one while the notifier's lock is held", 7,
 		func(o *an.Obl) {
 			// 1. adopted once
 			for _, h := range []struct{ fn, set string }{{"handleConfDetailsAtTip", "confSet"}, {"handleSpendDetailsAtTip", "spendSet"}} {
@@ -29,27 +29,24 @@ func c14Siblings(r *an.Run) {
 				}
 			}
 			// 2. stale historical details
-			for _, h := range []struct{ fn, set, height string }{
-				{"UpdateConfDetails", "confSet", "BlockHeight"},
-				{"UpdateSpendDetails", "spendSet", "SpendingHeight"},
-			} {
-				f := p.Func(tn + h.fn)
-				found := false
-				for _, v := range f.Graph().V {
-					be, ok := v.Node.(*ast.BinaryExpr)
-					if !ok || be.Op.String() != ">=" {
+			// The test sits in the function that assigns the details
+			// (UpdateConfDetails; updateSpendDetails, shared by
+			// UpdateSpendDetails and ProcessRelevantSpendTx), and no path
+			// reaches that assignment around it, so every caller is covered.
+			for _, k := range c14f5Kinds {
+				f := p.Func(c14f5Historical[k.name])
+				n := 0
+				for _, w := range c14f5DetailWrites(p, k) {
+					if w.clear || w.f.ID != f.ID {
 						continue
 					}
-					x, y := f.Canon(be.X), f.Canon(be.Y)
-					if strings.HasSuffix(x, "."+h.height) || strings.HasSuffix(x, "."+h.height+")") {
-						if strings.HasSuffix(y, ".reorgedHeight") {
-							found = true
-							o.Site("%s: stale test %s >= %s", h.fn, x, y)
-						}
+					n++
+					for _, pr := range c14f5StaleGuard(o, w) {
+						o.FailAt(f.ID+"#stale-historical-details", w.site.Where(), "%s", pr)
 					}
 				}
-				if !found {
-					o.FailAt(tn+h.fn+"#stale-historical-details", f.Where(f.Body.Pos()), "%s does not compare the height of the historical details with the request's reorgedHeight: details from a block disconnected while the rescan ran would be adopted", h.fn)
+				if n != 1 {
+					o.FailAt(f.ID+"#stale-historical-details", f.Where(f.Body.Pos()), "expected the one assignment of %s details found outside the block being connected in %s, found %d", k.name, f.ID, n)
 				}
 			}
 			dt := p.Func(tn + "DisconnectTip")
